@@ -203,6 +203,11 @@ Theorem mdtraj_default_mode_is_read : forall name m, In (name, m) default_modes 
 Proof. exact mdtraj_default_modes. Qed.
 Print Assumptions mdtraj_default_mode_is_read.
 
+(* every write-mode constructor call inside a Trajectory.save_* method, in whatever branch: force_overwrite is handed on *)
+Theorem mdtraj_saver_constructor_calls_forward_force : forall l f, In (l, f) saver_ctor_calls -> f = FPass \/ f = FLit false.
+Proof. exact mdtraj_saver_calls. Qed.
+Print Assumptions mdtraj_saver_constructor_calls_forward_force.
+
 (* the new checkers reject programs that break these clauses, and the rejected programs really do *)
 Theorem session_checkers_reject_harmful_programs :
   check_append truncating_appender = false /\
